@@ -221,6 +221,22 @@ CHECKS = {
               "terms together with rf are outside the documented domain."),
         technique="TLA+ run schedule + recurrence rule terms (TLC) applied by a generic evaluator; defining-relation residual for CDF",
     ),
+    "C03": dict(
+        cat="exploration",
+        text=("specs/Srs.tla: the option lattice 6 stype x 4 ic x 3 time x 6 peak x eqsine (864 points), the integer index model "
+              "(appended cycle ceil(sr/fmin), window start, history shape) with its laws checked by TLC on 24 index cases, and per "
+              "stype the response quantity and steady-state offset as terms over (z, z', a). The history oracle is the exact "
+              "oscillator step of specs/OdeModel.tla (m=1, b=w/Q, k=w^2, f=-a; 0 Hz = rigid-body step), started from rest one "
+              "sample before the record - it shares nothing with the ramp-invariant filter coefficients the code uses. For every "
+              "option point x index case (quick: 1/8 sample): resp['hist'] vs oracle (1e-9), shapes, resp['t'], spectrum = the "
+              "stated statistic of the returned history over the stated window (exact), getresp on/off, packaging 1-D/Nx1/NxH. "
+              "Laws: abs = max(pos,neg), total = max(primary,residual), pvelo = w reldisp, pacce = w^2 reldisp, eqsine = srs/Q, "
+              "linearity, column permutation, packaging, resampling sr contract; vrs / Miles / srs_frf closed forms."),
+        ref="4/C03",
+        note=("Trusted: TLC, generic evaluator. rolloff='none' for exactness (resampling accuracy is C19). ic='steady' at exactly 0 Hz "
+              "is not compared for reldisp/pvelo/pacce (singular static offset). vrs to 1% (end-band quadrature detail)."),
+        technique="TLA+ option lattice + index model (TLC) with the exact oscillator terms as history oracle; algebraic laws",
+    ),
 }
 
 NOT_YET = {}
